@@ -7,6 +7,8 @@ Lean model transcribes.  The functions are normalised (docstrings, comments and 
   skipStale  -- `_async_resubscribe_services` skips entries with `renewal_time < now - tolerance`
   delEarly   -- the bookkeeping entry is deleted before the renewal request is awaited
   clearDone  -- `_update_resubscriber_task` forgets a finished task (`.done()`), not only a cancelled one
+  subscribesEmbedded -- the subscribe loop iterates `profile_device.all_services` (services of embedded devices
+                included), not only `profile_device.services.values()`
 
 Any other shape raises Untranslatable (reported as broken obligation extract:C12Profile).
 """
@@ -97,6 +99,10 @@ UNSUB_ONE = """async def _async_unsubscribe_service(self, sid):
         pass
     except KeyError:
         pass"""
+
+def subscribe_tpl(iter_expr: str) -> str:
+    return SUBSCRIBE.replace("self.profile_device.services.values()", iter_expr)
+
 
 SUBSCRIBE = """async def async_subscribe_services(self, auto_resubscribe=False):
     if not self._event_handler:
@@ -221,10 +227,17 @@ def gen(repo: Path) -> str:
         return norm(funcs[name])
 
     for name, want in (("_resubscribe_loop", LOOP), ("async_unsubscribe_services", UNSUB),
-                       ("_async_unsubscribe_service", UNSUB_ONE), ("async_subscribe_services", SUBSCRIBE)):
+                       ("_async_unsubscribe_service", UNSUB_ONE)):
         got = need(name)
         if got != canon(want):
             raise Untranslatable(f"{name} has an unrecognised shape:\n{got}")
+    subf = need("async_subscribe_services")
+    if subf == canon(subscribe_tpl("self.profile_device.all_services")):
+        embedded = True
+    elif subf == canon(subscribe_tpl("self.profile_device.services.values()")):
+        embedded = False
+    else:
+        raise Untranslatable("async_subscribe_services has an unrecognised shape:\n" + subf)
     upd = need("_update_resubscriber_task")
     if upd == canon(update_task("done")):
         clear_done = True
@@ -245,6 +258,8 @@ def gen(repo: Path) -> str:
             + f"def delEarly : Bool := {b(early)}\n"
             + "/-- `_update_resubscriber_task` forgets a finished (`.done()`) task, not only a cancelled one -/\n"
             + f"def clearDone : Bool := {b(clear_done)}\n"
+            + "/-- the subscribe loop covers the services of embedded devices (`profile_device.all_services`) -/\n"
+            + f"def subscribesEmbedded : Bool := {b(embedded)}\n"
             + "/-- shapes pinned verbatim by the translator (normalised source must equal its template):\n"
             + "    `while self._subscriptions` / `min(values)` / `wait_time = next - monotonic() - tolerance` /\n"
             + "    `if wait_time > 0: sleep` / renew-all round; subscribe loop with rollback; clear-cancel-gather unsubscribe -/\n"
